@@ -559,19 +559,38 @@ SPEC["C04"] = {
          the same single token, whatever follows it, also after the blank the printer writes;
      (c) a printed list of exact string tokens is lexed back as '[' item (',' item)* ']', whatever the items
          contain and whatever follows.
-   Not proved: the tree-level statement (tosieve of an accepted tree re-parses to an equal tree and printing
-   is a fixed point).  The printer model (sieve/Printer.v: definition-order traversal, tag + parameter,
-   test lists, indentation, the newline after a multi-line string) is tied to commands.py by comparing the
-   printed text of every accepted input, and the round trip itself (print, re-parse, compare trees as maps,
-   print again, compare text) is evaluated on the implementation over enumerations, generated scripts,
-   layouts, mutants and a quoting-edge value generator.""",
-    "imports": SIEVE_IMPORTS + "From SV Require Import LexerFacts.\n",
+   Tree level (sieve/RenderFacts.v, sieve/PrintTree.v), for every script derivable in the grammar wf_cmds of
+   CompleteTree whose tree is in CANONICAL FORM [canon_cmd] — command names spelled as in their definitions,
+   arguments written in definition order with each optional slot at most once, values that are quoted
+   strings, numbers, tags or non-empty lists of quoted strings (no `text:` blocks):
+     (d) the lexer inverts rendering: well-formed tokens written with any white space between them (none where
+         two tokens cannot merge) are lexed back as exactly those tokens (C04_lex_render);
+     (e) the text the model of Command.tosieve prints for such a tree IS the layout of the script's tokens
+         (one command per line, four spaces per level, ", " in lists) (C04_tosieve_layout);
+     (f) hence it is accepted and parses to EXACTLY the tree that was printed, and printing that tree again
+         gives the same text (C04_print_parse_roundtrip, C04_print_fixed_point) — unbounded over tables,
+         scripts, nesting depth, values.
+   Not proved: trees that are not in canonical form (arguments given in another order, repeated tags — the
+   printed text is then a different script with the same maps; equality of maps, not of trees), multi-line
+   strings, the commands outside wf_def (known findings).  The printer model is tied to commands.py by
+   comparing the printed text of every accepted input, and the round trip itself (print, re-parse, compare
+   trees as maps, print again, compare text) is evaluated on the implementation over enumerations, generated
+   scripts, layouts, mutants, repeated tags and a quoting-edge value generator.""",
+    "imports": SIEVE_IMPORTS + "From SV Require Import TotalFacts LexerFacts CompleteFacts CompleteTree CompleteExamples RenderFacts PrintTree PrintExamples.\n",
     "theorems": [
         ("C04_lexed_strings_exact", "LexerFacts.lexed_strings_exact", "every string token delivered by the lexer is an exact string token"),
         ("C04_item_printed_unchanged", "LexerFacts.print_item_exact", "the list-item printer leaves a string token alone, whatever it contains"),
         ("C04_string_lexes_back", "LexerFacts.next_token_exact", "a printed string token is lexed back as the same single token, whatever follows"),
         ("C04_string_lexes_back_after_blank", "LexerFacts.next_token_exact_sp", "... also after the blank the printer writes before a value"),
         ("C04_list_lexes_back", "LexerFacts.printed_list_lexes_back", "a printed list is lexed back as bracket, the same items separated by commas, bracket"),
+        ("C04_lex_render", "RenderFacts.lex_lrender", "the lexer inverts rendering, for every token kind and every white space"),
+        ("C04_layout_lexes", "PrintTree.layout_lexes", "the tosieve layout of a printable script is lexed back as the tokens of the script"),
+        ("C04_layout_parses", "PrintTree.layout_parses", "... and parses to its tree"),
+        ("C04_tosieve_layout", "PrintTree.tosieve_layout", "the model of Command.tosieve prints exactly that layout for a tree in canonical form"),
+        ("C04_print_parse_roundtrip", "PrintTree.print_parse_roundtrip", "tree level: parse (print tree) = tree"),
+        ("C04_print_fixed_point", "PrintTree.print_fixed_point", "printing the re-parsed tree reproduces the text"),
+        ("C04_example_canonical", "PrintExamples.ex_canon", "non-vacuity on the tables generated from /repo: the tree of the example script (require, if/elsif/else, anyof, not, nested blocks, tags with parameters, numbers, lists) is canonical"),
+        ("C04_example_roundtrip", "PrintExamples.ex_roundtrip", "... and the theorem gives its round trip"),
         ("raw", r'''(* non-vacuity: hostile contents are exact string tokens; and the model round trip on a concrete script *)
 Example C04_exact_examples :
   Forall exact_string [bs """a\""b"""; bs """back\\slash"""; bs """[x], """; bs """two" ++ [10%N] ++ bs "lines"""; bs """"""].
